@@ -114,7 +114,7 @@ def rel3(camp, p):
 
 @composite
 def case(d):
-    p = family.member_of(d)
+    p = family.member_of(d, prefer=("X01c", "X01", "K03", "E03"))
     return p, d
 
 
